@@ -672,4 +672,302 @@ theorem ordW_dispatch (w : W) (j : Job) (hc : Lite w) (h : OrdW I S w) (hnb : w.
           · intro p hp x hx s hs'; rw [mp] at hp; rw [hwqe] at hx; exact hr.sm p hp x hx s hs'
     · exact h.of_actors rfl rfl ((envEq_discard _ _ _ _).trans (envEq_reject _ _)).actors
 
+
+/-! ## through the other handlers -/
+
+theorem ordW_growOne (w : W) (wid : Nat) (hc : Core fk w) (h : OrdW I S w) : OrdW I S (w.growOne wid) := by
+  unfold W.growOne
+  split
+  · rename_i p hg
+    dsimp only
+    have h1 : OrdW I S ({ w with pool := setW w.pool wid { p with draining := false } } : W) :=
+      h.sub (List.Sublist.refl _) (poolSubW_setW (p' := { p with draining := false }) hc.lite hg rfl rfl
+        (List.Sublist.refl _) (fun _ _ => rfl) rfl)
+    split
+    · have hf := availChange_frame ({ w with pool := setW w.pool wid { p with draining := false } } : W) wid true
+      exact h1.of_eq hf.queue hf.pool hf.mbox
+    · exact h1
+  · dsimp only
+    have hnone : w.env.getActor w.nextAid = none := by
+      cases hx : w.env.getActor w.nextAid with
+      | none => rfl
+      | some x => exact absurd (hc.aidLt _ x hx) (Nat.lt_irrefl _)
+    have hf := availChange_frame ({ w with
+        nextAid := w.nextAid + 1
+        env := w.env.spawn wid w.nextAid
+        pool := w.pool ++ [({ wid := wid, actor := w.nextAid, disc := w.workerDiscard w.disc, handler := w.handler } : WP)]
+        byActor := w.byActor ++ [(w.nextAid, wid)] } : W) wid true
+    refine OrdW.of_eq ?_ hf.queue hf.pool hf.mbox
+    have hold : ∀ q ∈ w.pool, wq q (w.env.spawn wid w.nextAid) = wq q w.env := by
+      intro q hq
+      obtain ⟨a, g, _⟩ := hc.sa q hq
+      unfold wq
+      rw [mbox_spawn_old _ _ _ _ (Or.inr (by rw [g]; rfl))]
+    have hnew : wq ({ wid := wid, actor := w.nextAid, disc := w.workerDiscard w.disc, handler := w.handler } : WP)
+        (w.env.spawn wid w.nextAid) = [] := by
+      unfold wq
+      simp only [List.append_nil]
+      exact mbox_spawn_new _ _ _ hnone
+    refine ⟨h.q, ?_, h.qi, ?_, ?_, h.sq, ?_⟩
+    · intro p hp
+      rcases List.mem_append.mp hp with hp | hp
+      · simp only; rw [hold p hp]; exact h.m p hp
+      · simp only [List.mem_singleton] at hp; subst hp; simp only; rw [hnew]; exact List.Pairwise.nil
+    · intro p hp x hx y hy
+      rcases List.mem_append.mp hp with hp | hp
+      · simp only at hx; rw [hold p hp] at hx; exact h.mq p hp x hx y hy
+      · simp only [List.mem_singleton] at hp; subst hp; simp only at hx; rw [hnew] at hx; cases hx
+    · intro p hp x hx y hy
+      rcases List.mem_append.mp hp with hp | hp
+      · simp only at hx; rw [hold p hp] at hx; exact h.mi p hp x hx y hy
+      · simp only [List.mem_singleton] at hp; subst hp; simp only at hx; rw [hnew] at hx; cases hx
+    · intro p hp x hx s hs
+      rcases List.mem_append.mp hp with hp | hp
+      · simp only at hx; rw [hold p hp] at hx; exact h.sm p hp x hx s hs
+      · simp only [List.mem_singleton] at hp; subst hp; simp only at hx; rw [hnew] at hx; cases hx
+
+theorem ordW_foldl {f : W → Nat → W} (hf : ∀ w k, Core fk w → OrdW I S w → OrdW I S (f w k))
+    (hcf : ∀ w k, Core fk w → Core fk (f w k)) (l : List Nat) (w : W)
+    (hc : Core fk w) (h : OrdW I S w) : OrdW I S (l.foldl f w) := by
+  induction l generalizing w with
+  | nil => exact h
+  | cons a l ih => exact ih _ (hcf _ _ hc) (hf _ _ hc h)
+
+theorem ordW_growPool (w : W) (n : Nat) (hc : Core fk w) (h : OrdW I S w) : OrdW I S (w.growPool n) := by
+  unfold W.growPool
+  exact ordW_foldl (fun w k hcw hw => ordW_growOne w _ hcw hw) (fun w k hcw => core_growOne w _ hcw) _ w hc h
+
+theorem poolSubW_removeW_stop {w w' : W} {wid aid : Nat} (h1 : w'.pool = removeW w.pool wid) (h2 : w'.env = w.env.stop aid) :
+    PoolSubW w w' := by
+  intro x hx
+  rw [h1] at hx
+  refine ⟨x, mem_removeW hx, ?_⟩
+  unfold wq; rw [h2, mbox_stop]; exact List.Sublist.refl _
+
+theorem ordW_shrinkOne (w : W) (wid : Nat) (hc : Core fk w) (h : OrdW I S w) : OrdW I S (w.shrinkOne wid) := by
+  unfold W.shrinkOne
+  split
+  · rename_i p hg
+    split
+    · exact h.sub (List.Sublist.refl _) (poolSubW_setW (p' := { p with draining := true }) hc.lite hg rfl rfl
+        (List.Sublist.refl _) (fun _ _ => rfl) rfl)
+    · have hf := availChange_frame w wid false
+      have h1 : OrdW I S (w.availChange wid false) := h.of_eq hf.queue hf.pool hf.mbox
+      exact h1.sub (List.Sublist.refl _) (poolSubW_removeW_stop rfl rfl)
+  · exact h
+
+theorem ordW_shrinkPool (w : W) (n : Nat) (hc : Core fk w) (h : OrdW I S w) : OrdW I S (w.shrinkPool n) := by
+  unfold W.shrinkPool
+  exact ordW_foldl (fun w k hcw hw => ordW_shrinkOne w _ hcw hw) (fun w k hcw => core_shrinkOne w _ hcw) _ w hc h
+
+theorem ordW_flushAfterGrow (fuel : Nat) (w : W) (hc : Core fk w) (h : OrdW I S w) : OrdW I S (W.flushAfterGrow fuel w) := by
+  induction fuel generalizing w with
+  | zero => exact h
+  | succ fuel ih =>
+    unfold W.flushAfterGrow
+    simp only
+    split
+    · exact h
+    · split
+      · exact ordW_tryRoute w none hc.lite h
+      · exact ih _ (core_tryRoute w none hc) (ordW_tryRoute w none hc.lite h)
+
+theorem ordW_resizePool (w : W) (n : Nat) (hc : Core fk w) (h : OrdW I S w) : OrdW I S (w.resizePool n) := by
+  unfold W.resizePool
+  split
+  · exact h
+  · simp only
+    split
+    · exact ordW_flushAfterGrow _ _ ((core_growPool w _ hc).frame ⟨rfl, rfl, rfl, EnvEq.refl _⟩)
+        ((ordW_growPool w _ hc h).of_actors rfl rfl rfl)
+    · split
+      · exact (ordW_shrinkPool w _ hc h).of_actors rfl rfl rfl
+      · exact h.of_actors rfl rfl rfl
+
+theorem ordW_ite (c : Prop) [Decidable c] (a b : W) (ha : OrdW I S a) (hb : OrdW I S b) : OrdW I S (if c then a else b) := by
+  split <;> assumption
+
+theorem wq_workerComplete (p : WP) (e : Env) (key : Nat) :
+    (p.workerComplete e key).1.actor = p.actor ∧ (wq (p.workerComplete e key).1 (p.workerComplete e key).2).Sublist (wq p e) ∧
+    ∀ b, b ≠ p.actor → mbox (p.workerComplete e key).2 b = mbox e b := by
+  unfold WP.workerComplete
+  split
+  · exact wq_nextJob { p with curr := p.curr.filter (fun x => x.1 != key), pending := p.pending.erase key } e
+  · exact ⟨rfl, List.Sublist.refl _, fun _ _ => rfl⟩
+
+theorem ordW_workerFinishedJob (w : W) (who key : Nat) (hl : Lite w) (h : OrdW I S w) :
+    OrdW I S (w.workerFinishedJob who key) := by
+  unfold W.workerFinishedJob
+  split
+  · rename_i p hg
+    obtain ⟨c1, c2, c3⟩ := wq_workerComplete p w.env key
+    have cw := workerComplete_wid p w.env key
+    cases hwc : p.workerComplete w.env key with
+    | mk p' e' =>
+      rw [hwc] at c1 c2 c3 cw
+      simp only at c1 c2 c3 cw ⊢
+      have h1 : OrdW I S ({ w with pool := setW w.pool who p', env := e' } : W) :=
+        h.sub (List.Sublist.refl _) (poolSubW_setW (w' := { w with pool := setW w.pool who p', env := e' }) hl hg c1 cw c2 c3 rfl)
+      have hl1 : Lite ({ w with pool := setW w.pool who p', env := e' } : W) := lite_setW hl hg c1 cw rfl
+      split
+      · split
+        · exact h1.sub (List.Sublist.refl _) (poolSubW_removeW_stop rfl rfl)
+        · exact h1
+      · apply ordW_ite
+        · have hf := availChange_frame (W.tryRouteNextActiveJob { w with pool := setW w.pool who p', env := e' } (some who)) who true
+          exact (ordW_tryRoute _ _ hl1 h1).of_eq hf.queue hf.pool hf.mbox
+        · exact ordW_tryRoute _ _ hl1 h1
+  · exact ordW_tryRoute w _ hl h
+
+theorem ordW_removeExpired (w : W) (h : OrdW I S w) : OrdW I S w.removeExpired := by
+  unfold W.removeExpired
+  split
+  · refine h.sub List.filter_sublist (PoolSubW.of_eq rfl ?_)
+    intro aid
+    apply mbox_of_actors
+    simp only
+    generalize expiredInOrder w.cfg w.env.now w.queue = ex
+    generalize w.env = e
+    induction ex generalizing e with
+    | nil => rfl
+    | cons x xs ih => simp only [List.foldl_cons]; rw [ih]; rfl
+  · exact h
+
+theorem ordW_calcRest (w : W) (h : OrdW I S w) : OrdW I S w.calcRest := by
+  unfold W.calcRest
+  exact (ordW_removeExpired w h).of_actors rfl rfl rfl
+
+theorem poolSubW_map {w w' : W} (f : WP → WP) (hm : ∀ p, (f p).mq = p.mq) (ha : ∀ p, (f p).actor = p.actor)
+    (h1 : w'.pool = w.pool.map f) (h2 : ∀ aid, mbox w'.env aid = mbox w.env aid) : PoolSubW w w' := by
+  intro x hx
+  rw [h1] at hx
+  obtain ⟨y, hy, rfl⟩ := List.mem_map.mp hx
+  refine ⟨y, hy, ?_⟩
+  unfold wq; rw [hm, ha, h2]; exact List.Sublist.refl _
+
+theorem ordW_updateSettings (w : W) (d : Option (Option (Nat × Mode))) (n : Option Nat) (hc : Core fk w) (h : OrdW I S w) :
+    OrdW I S (w.updateSettings d n) := by
+  have hc1 := core_updateSettings w d none hc
+  have h1 : OrdW I S (w.updateSettings d none) := by
+    unfold W.updateSettings
+    cases d with
+    | none => exact h
+    | some d =>
+      exact h.sub (List.Sublist.refl _)
+        (poolSubW_map (fun p => { p with disc := w.workerDiscard d }) (fun _ => rfl) (fun _ => rfl) rfl (fun _ => rfl))
+  cases n with
+  | none => exact h1
+  | some n =>
+    have : w.updateSettings d (some n) = (w.updateSettings d none).resizePool n := by unfold W.updateSettings; rfl
+    rw [this]
+    exact ordW_resizePool _ n hc1 h1
+
+theorem ordW_afterReplace (w : W) (wid : Nat) (hl : Lite w) (h : OrdW I S w) : OrdW I S (w.afterReplace wid) := by
+  unfold W.afterReplace
+  cases hret : w.retireIdleDrainingWorker wid with
+  | some w2 =>
+    simp only
+    unfold W.retireIdleDrainingWorker at hret
+    split at hret
+    · split at hret
+      · simp only [Option.some.injEq] at hret; subst hret
+        exact h.sub (List.Sublist.refl _) (poolSubW_removeW_stop rfl rfl)
+      · simp at hret
+    · simp at hret
+  | none =>
+    simp only
+    apply ordW_ite
+    · have hf := availChange_frame (w.tryRouteNextActiveJob (some wid)) wid true
+      exact (ordW_tryRoute _ _ hl h).of_eq hf.queue hf.pool hf.mbox
+    · exact ordW_tryRoute _ _ hl h
+
+
+theorem nextJob_wid (p : WP) (e : Env) : (p.nextJob e).1.wid = p.wid := by
+  unfold WP.nextJob
+  cases hg : p.getNext e with
+  | mk r pe =>
+    obtain ⟨p2, e2⟩ := pe
+    have hw : p2.wid = p.wid := by have := getNext_wid p e; rw [hg] at this; exact this
+    cases r with
+    | none => exact hw
+    | some j => simp only; rw [dispatchJob_wid]; exact hw
+
+theorem ordW_handleSupervisorEvt (w0 : W) (who : Nat) (rest : List Nat) (hc : Core fk w0) (h : OrdW I S w0) :
+    OrdW I S (({ w0 with env := { w0.env with sup := rest } } : W).handleSupervisorEvt who) := by
+  have h0 : OrdW I S ({ w0 with env := { w0.env with sup := rest } } : W) := h.of_actors rfl rfl rfl
+  unfold W.handleSupervisorEvt
+  simp only
+  split
+  · exact h0
+  · rename_i x wid hf
+    cases hg : getW w0.pool wid with
+    | none => simp only; exact h0
+    | some p =>
+      simp only
+      rw [replaceWorker_eq]
+      generalize hp1 : ({ p with curr := [], pending := p.curr.foldl (fun acc x => acc.erase x.1) p.pending, actor := w0.nextAid } : WP) = p1
+      have hp1w : p1.wid = p.wid := by subst hp1; rfl
+      have hp1a : p1.actor = w0.nextAid := by subst hp1; rfl
+      have hp1m : p1.mq = p.mq := by subst hp1; rfl
+      generalize he1 : (({ w0.env with sup := rest } : Env).spawn wid w0.nextAid) = e1
+      have hpm := getW_mem hg
+      have hnone : ({ w0.env with sup := rest } : Env).getActor w0.nextAid = none := by
+        show w0.env.getActor w0.nextAid = none
+        cases hx : w0.env.getActor w0.nextAid with
+        | none => rfl
+        | some a => exact absurd (hc.aidLt _ a hx) (Nat.lt_irrefl _)
+      have hnew : mbox e1 w0.nextAid = [] := by rw [← he1]; exact mbox_spawn_new _ _ _ hnone
+      have hold : ∀ q ∈ w0.pool, mbox e1 q.actor = mbox w0.env q.actor ∧ q.actor ≠ w0.nextAid := by
+        intro q hq
+        obtain ⟨a, g, _⟩ := hc.sa q hq
+        refine ⟨?_, fun hcc => Nat.lt_irrefl _ (by have := hc.aidLt _ a g; rw [hcc] at this; exact this)⟩
+        rw [← he1]
+        have g' : ({ w0.env with sup := rest } : Env).getActor q.actor = some a := g
+        rw [mbox_spawn_old _ _ _ _ (Or.inr (by rw [g']; rfl))]
+        rfl
+      obtain ⟨n1, n2, n3⟩ := wq_nextJob p1 e1
+      have nw := nextJob_wid p1 e1
+      cases hnj : p1.nextJob e1 with
+      | mk p' e' =>
+        rw [hnj] at n1 n2 n3 nw
+        simp only at n1 n2 n3 nw ⊢
+        have hsub : (wq p' e').Sublist (wq p w0.env) := by
+          refine n2.trans ?_
+          unfold wq
+          rw [hp1a, hnew, hp1m]
+          simp only [List.nil_append]
+          exact List.sublist_append_right _ _
+        have hpw : p.wid = wid := getW_wid hg
+        -- the world with the replacement installed
+        have hmem : ∀ q, q ∈ setW w0.pool wid p' → q = p' ∨ (q ∈ w0.pool ∧ q.wid ≠ wid) := by
+          intro q hq
+          exact mem_setW_ne hc.nodupW hg ((nw.trans hp1w).trans hpw) hq
+        have hps : PoolSubW w0 ({ w0 with
+            nextAid := w0.nextAid + 1, env := e', pool := setW w0.pool wid p'
+            byActor := w0.byActor.filter (fun (y : Nat × Nat) => y.1 != who) ++ [(w0.nextAid, wid)] } : W) := by
+          intro q hq
+          rcases hmem q hq with hq | ⟨hq, _⟩
+          · subst hq; exact ⟨p, hpm, hsub⟩
+          · refine ⟨q, hq, ?_⟩
+            obtain ⟨o1, o2⟩ := hold q hq
+            unfold wq
+            simp only
+            rw [n3 _ (by rw [hp1a]; exact o2), o1]
+            exact List.Sublist.refl _
+        have hlm : Lite ({ w0 with
+            nextAid := w0.nextAid + 1, env := e', pool := setW w0.pool wid p'
+            byActor := w0.byActor.filter (fun (y : Nat × Nat) => y.1 != who) ++ [(w0.nextAid, wid)] } : W) := by
+          refine ⟨nodupW_setW ((nw.trans hp1w).trans hpw) hc.nodupW, ?_⟩
+          intro a ha b hb hab
+          simp only at ha hb
+          rcases hmem a ha with ha | ⟨ha, _⟩
+          · rcases hmem b hb with hb | ⟨hb, _⟩
+            · rw [ha, hb]
+            · exact absurd (by rw [← hab, ha, n1, hp1a]) (hold b hb).2
+          · rcases hmem b hb with hb | ⟨hb, _⟩
+            · exact absurd (by rw [hab, hb, n1, hp1a]) (hold a ha).2
+            · exact hc.actor_inj ha hb hab
+        apply ordW_afterReplace _ _ hlm
+        exact h.sub (List.Sublist.refl _) hps
+
 end Factory
